@@ -86,8 +86,20 @@ def binding_inits(hfn):
     def visit(e, anc):
         k = e.get('k')
         if k in ('slet', 'let') and 'init' in e:
+            pat = e['pat']
+            done = set()
+            if isinstance(pat, dict) and pat.get('k') == 'pstruct':
+                # `let S { a, b: c, .. } = v;` binds a to `v.a`, c to `v.b`
+                for f in pat.get('fields', []):
+                    sp = f.get('p')
+                    while isinstance(sp, dict) and sp.get('k') == 'pref':
+                        sp = sp['p']
+                    if isinstance(sp, dict) and sp.get('k') == 'bind' and 'sub' not in sp:
+                        res.setdefault(sp['name'], []).append({'k': 'field', 'e': e['init'], 'n': f['n'], 'ln': e.get('ln')})
+                        done.add(sp['name'])
             for n in pat_bindings(e['pat']):
-                res.setdefault(n, []).append(e['init'])
+                if n not in done:
+                    res.setdefault(n, []).append(e['init'])
         elif k == 'match':
             for a in e['arms']:
                 for n in pat_bindings(a['pat']):
@@ -555,3 +567,87 @@ def walk_paths(root, fn):
         else:
             rec(v, p2)
     rec(root, [])
+
+
+def unroll_literal_loops(hfn, max_len=16):
+    """`for x in [a, b, c] { body }` (array literal, directly or through a `let`) as the block `{ body[x:=a]; body[x:=b];
+    body[x:=c] }` -- every element is visited once, in order, so the loop is just a way of writing the sequence.  Loops
+    whose body can `break`/`continue` are left alone."""
+    inits = binding_inits(hfn)
+
+    consumed = set()
+
+    def array_of(e):
+        e = peel(e)
+        if isinstance(e, dict) and e.get('k') == 'local':
+            its = inits.get(e['name'], [])
+            if len(its) == 1:
+                if isinstance(peel(its[0]), dict) and peel(its[0]).get('k') == 'array':
+                    consumed.add(e['name'])
+                e = peel(its[0])
+        if isinstance(e, dict) and e.get('k') == 'array' and len(e.get('es', [])) <= max_len:
+            return e['es']
+        return None
+
+    def rec(n):
+        if isinstance(n, dict):
+            n = {k: (v if k in CHILD_SKIP else rec(v)) for k, v in n.items()}
+            if n.get('k') == 'match' and n.get('src', '').startswith('ForLoop') and isinstance(n.get('scrut'), dict) \
+                    and n['scrut'].get('k') == 'call' and n['scrut']['f'].get('name') == 'into_iter' and n['scrut']['args']:
+                elems = array_of(n['scrut']['args'][0])
+                if elems is not None and len(n['arms']) == 1:
+                    lp = n['arms'][0]['body']
+                    inner = None
+                    if isinstance(lp, dict) and lp.get('k') == 'loop' and lp['body'].get('stmts'):
+                        inner = lp['body']['stmts'][0]
+                    if isinstance(inner, dict) and inner.get('k') == 'match' and len(inner.get('arms', [])) == 2:
+                        some = [a for a in inner['arms'] if 'Some' in repr(a['pat'])[:300]]
+                        if some:
+                            names = pat_bindings(some[0]['pat'])
+                            body = some[0]['body']
+                            esc = []
+                            walk(body, lambda x, anc: esc.append(x) if x.get('k') in ('break', 'continue') else None)
+                            if len(names) == 1 and not esc:
+                                stmts = [_beta(subst(body, {names[0]: el})) for el in elems]
+                                return {'k': 'block', 'stmts': stmts, 'ln': n.get('ln'), 'unrolled': True}
+            return n
+        if isinstance(n, list):
+            return [rec(x) for x in n]
+        return n
+    body = rec(hfn['body'])
+    if consumed:
+        # the table the loop ran over is gone with the loop (unless something else still mentions it)
+        def still_used(name, root):
+            hit = []
+            walk(root, lambda x, anc: hit.append(x) if x.get('k') == 'local' and x.get('name') == name else None)
+            return bool(hit)
+
+        def drop(n):
+            if isinstance(n, dict):
+                n = {k: (v if k in CHILD_SKIP else drop(v)) for k, v in n.items()}
+                if n.get('k') == 'block' and n.get('stmts'):
+                    n['stmts'] = [st for st in n['stmts'] if not (
+                        isinstance(st, dict) and st.get('k') == 'slet' and st['pat'].get('k') == 'bind' and
+                        st['pat'].get('name') in consumed and not still_used(st['pat']['name'], {'k': 'x', 'v': [
+                            s2 for s2 in n['stmts'] if s2 is not st] + [n.get('expr')]}))]
+                return n
+            if isinstance(n, list):
+                return [drop(x) for x in n]
+            return n
+        body = drop(body)
+    return {'path': hfn['path'], 'params': hfn.get('params', []), 'body': body}
+
+
+def _beta(n):
+    """apply closures that are called directly (`(|a, b| body)(x, y)`) after a substitution"""
+    if isinstance(n, dict):
+        n = {k: (v if k in CHILD_SKIP else _beta(v)) for k, v in n.items()}
+        if n.get('k') == 'call' and isinstance(n.get('f'), dict) and _strip_wrappers(n['f']).get('k') == 'closure':
+            cl = _strip_wrappers(n['f'])
+            ps = cl.get('params', [])
+            if len(ps) == len(n['args']) and all(p_.get('k') == 'bind' for p_ in ps):
+                return _beta(subst(cl['body'], {p_['name']: a for p_, a in zip(ps, n['args'])}))
+        return n
+    if isinstance(n, list):
+        return [_beta(x) for x in n]
+    return n
